@@ -30,6 +30,9 @@ type RefResult struct {
 	NodeRuns       map[string]int // per node path
 	FaultTags      []string       // tags of fault-carrying lambdas that the model executed
 	CancelSeen     bool           // a lambda with Fault == cancel executed
+	// FailPath: when a graph node fails because the graph inside it fails by itself (step limit, no tasks,
+	// merge), the path of the innermost such graph node.
+	FailPath string
 	// Leftover: some produced value has no consumer (a node without successors ran, END was reached
 	// while other nodes were scheduled too, a value was sent to a skipped node, or nodes that do not
 	// lead to END exist) -- outside the domain of the leak property.
@@ -127,6 +130,10 @@ func evalNode(res *RefResult, n *NodeSpec, path string, in any) (any, string) {
 		sub := Ref(n.Sub, tag+"/", x, RefOpts{})
 		res.absorb(sub)
 		if sub.Fail != "" {
+			res.FailPath = tag
+			if sub.FailPath != "" {
+				res.FailPath = sub.FailPath
+			}
 			return nil, "sub:" + sub.Fail
 		}
 		out = sub.Out
